@@ -185,3 +185,26 @@ Print Assumptions C02_attest_once_redo_needs_consistency.
 Example C02_thresholds_consistent_satisfiable : forall pm D v0,
   params_pos pm -> (forall x, In x D -> vt_val x = v0) -> thresholds_consistent pm D.
 Proof. exact thresholds_consistent_single_value. Qed.
+
+(* ------------------------------------------------------------------------------------------
+   The two halves composed, for the proved steps: the agreement model (guarded by the decidable
+   trace premises: an offending event or a model panic stops the machine) inside the fine-grained
+   persist-before-release wrapper never releases two different values for one (sender, round, period,
+   step) with step = soft or next_k -- for EVERY interleaving of events, writes, failed writes,
+   checkpoint deliveries and crashes.  _partial: cert / late / redo / down as listed above. *)
+From Verif.proofs Require Import C02Compose.
+
+Theorem C02_model_nonequiv_soft_next_partial :
+  forall pm own r0 (restore : mstate -> mstate) (eqv : mstate -> mstate -> Prop),
+    params_pos pm ->
+    (forall s, eqv s s) -> (forall a b c, eqv a b -> eqv b c -> eqv a c) ->
+    (forall s s' e, eqv s s' -> snd (gstep pm own s e) = snd (gstep pm own s' e) /\
+                                eqv (fst (gstep pm own s e)) (fst (gstep pm own s' e))) ->
+    (forall s, eqv (restore s) s) ->
+    forall ops v1 v2,
+      In v1 (f_released mstate ext_event cvote (frun mstate ext_event cvote (Some (init pm r0)) (gstep pm own) restore ops)) ->
+      In v2 (f_released mstate ext_event cvote (frun mstate ext_event cvote (Some (init pm r0)) (gstep pm own) restore ops)) ->
+      ~ (cv_snd v1 = cv_snd v2 /\ cv_rnd v1 = cv_rnd v2 /\ cv_per v1 = cv_per v2 /\ cv_step v1 = cv_step v2 /\
+         tracked (cv_step v1) = true /\ cv_val v1 <> cv_val v2).
+Proof. exact model_nonequiv_soft_next. Qed.
+Print Assumptions C02_model_nonequiv_soft_next_partial.
